@@ -150,6 +150,15 @@ void OPNMIDIplay::applySetup()
     else
         chipType = m_setup.chipType;
 
+    // The chip channels are about to be re-created: forget the notes that refer to them
+    for(size_t c = 0, n = m_midiChannels.size(); c < n; ++c)
+    {
+        MIDIchannel &ch = m_midiChannels[c];
+        ch.activenotes.clear();
+        ch.gliding_note_count = 0;
+        ch.extended_note_count = 0;
+    }
+
     synth.reset(m_setup.emulator, m_setup.PCM_RATE, static_cast<OPNFamily>(chipType), this);
     m_chipChannels.clear();
     m_chipChannels.resize(synth.m_numChannels, OpnChannel());
